@@ -66,7 +66,7 @@ pub fn run(ctx: &Ctx, id: &str) -> i32 {
     // a shipped decoder that does not come back / allocates without bound: this process ends itself with exit code 3
     // and the operations in flight in a file; `./check` then runs `zvtmon runaway-confirm`, which runs each of them
     // again alone in a fresh process before anything is reported (see refcodec::runaway)
-    refcodec::runaway::start_watchdog(runaway_file(id), std::time::Duration::from_secs(30), 4 << 20);
+    refcodec::runaway::start_watchdog(runaway_file(id), std::time::Duration::from_secs(20), 4 << 20);
     let make: &(dyn Fn() -> Box<dyn Sut> + Sync) = &|| Box::new(refcodec::runaway::Watched(InProc));
     run_types(ctx.threads, ctx.seed, &mut report, &schema, &keys, prop, id, &plan, make);
     presence_floor(&mut report, &schema, &keys);
